@@ -1,13 +1,21 @@
-# C08 -- univariate polynomial arithmetic (Poly1Dom<Domain,Dense>) satisfies its defining identities.
-# proof:  coq/C08 (list model written after src/library/poly1/*.inl; theorems over any field_theory)
-# tie:    correspondence: extracted model instantiated at Z/pZ  vs  Poly1Dom<Modular<int32_t>,Dense> compiled from
-#         /repo's current headers, once with the real thresholds and once with -DKARA_THRESHOLD=2 -DSQR_THRESHOLD=2
+# C08 -- univariate polynomial arithmetic (Poly1Dom<Domain,Dense>, Interpolation, Poly1CRT) satisfies its defining identities.
+# proof:  coq/C08 (list model written after src/library/poly1/*.inl; theorems over an abstract field record)
+# tie:    correspondence: extracted model instantiated at Z/pZ  vs  Poly1Dom<Field,Dense> compiled from /repo's current
+#         headers for Field in {Modular<int32_t>, Modular<int64_t>, Modular<double>, Modular<Integer>, ModularBalanced<int32_t>,
+#         GFqDom<int32_t>(p,1)}, with -DKARA_THRESHOLD=2 -DSQR_THRESHOLD=2 and (Modular<int32_t>, Modular<Integer>) the real thresholds
 # search: independent python schoolbook arithmetic mod p (values and defining identities)
 import json, os, re, sys
+from concurrent.futures import ThreadPoolExecutor
 import vf
 
 AREA = "C08"
-PRIMES = [2, 3, 7, 65521]
+P100 = 2 ** 100 + 277
+# (field key of the harness, characteristic)
+FIELDS_SMALLTHR = [("mi32", 2), ("mi32", 3), ("mi32", 7), ("mi32", 65521), ("mi64", 2147483647), ("md", 5), ("md", 67108859),
+                   ("mI", P100), ("mI", 3), ("mb32", 7), ("mb32", 32749), ("gfq", 7), ("gfq", 251)]
+FIELDS_REAL = [("mi32", 2), ("mi32", 3), ("mi32", 7), ("mi32", 65521), ("mI", P100)]
+FIELD_NAMES = {"mi32": "Modular<int32_t>", "mi64": "Modular<int64_t>", "md": "Modular<double>", "mI": "Modular<Integer>",
+               "mb32": "ModularBalanced<int32_t>", "gfq": "GFqDom<int32_t>(p,1)"}
 
 # variant (call form of the implementation) -> model operation; arguments are given in the model's order
 VARIANTS = {
@@ -15,37 +23,52 @@ VARIANTS = {
     "leadcoef": "leadcoef", "isZero": "isZero", "areEqual": "areEqual", "areNEqual": "areEqual",
     "assign": "assign", "monomial": "monomial", "monomial.init": "monomial",
     "eval": "eval", "diff": "diff", "reverse": "reverse", "reversein": "reverse",
-    "add.rpq": "add", "add.alias": "add", "addin": "add", "add.rps": "add_s", "add.rsp": "add_s", "addin.s": "addin_s",
+    "add.rpq": "add", "add.alias": "add", "addin": "addin", "add.rps": "add_s", "add.rsp": "add_s", "addin.s": "addin_s",
+    "add.rps.Dzero": "add_s", "add.rsp.Dzero": "add_s", "sub.rps.Dzero": "sub_s",
     "sub.rpq": "sub", "subin": "subin", "sub.rps": "sub_s", "sub.rsp": "s_sub", "subin.s": "subin_s",
     "neg": "neg", "negin": "neg",
     "mul.rpq": "mul", "mul.empty": "mul", "mulin": "mulin", "stdmul": "stdmul", "karamul": "karamul",
     "mul.rps": "mul_s", "mul.rsp": "mul_s", "mulin.s": "mul_s", "sqr": "sqr",
-    "div.rps": "div_s", "divin.s": "div_s", "invmodpowx": "invmodpowx",
+    "mul.trunc": "mul_trunc", "midmul": "midmul", "stdmidmul": "midmul", "karamidmul": "midmul", "power_compose": "power_compose",
+    "div.rps": "div_s", "divin.s": "div_s", "div.rsp": "div_sp", "mod.rsp": "mod_sp", "mod.rps": "mod_ps", "modin.s": "mod_ps",
+    "invmodpowx": "invmodpowx", "modpowx": "modpowx", "modpowxin": "modpowx",
     "div.rpq": "div", "divin": "div", "divmod": "divmod", "divmodin": "divmodin", "mod.rpq": "mod", "modin": "modin",
-    "pdivmod": "pdivmod", "pmod": "pmod",
+    "pdivmod": "pdivmod", "pmod": "pmod", "isDivisor": "isDivisor",
     "gcd.2": "gcd", "gcd.5": "gcdext", "invmod": "invmod", "invmodunit": "invmodunit", "lcm": "lcm",
     "pow": "pow", "powmod": "powmod", "powmod.u64": "powmod",
     "axpy": "axpy", "axpy.s": "axpy_s", "axpyin": "axpyin", "axpyin.s": "axpy_s",
-    "maxpy": "maxpy", "maxpyin": "maxpyin", "maxpyin.s": "maxpyin_s",
+    "maxpy": "maxpy", "maxpy.s": "maxpy_s", "maxpyin": "maxpyin", "maxpyin.s": "maxpyin_s",
     "axmy": "axmy", "axmy.s": "axmy_s", "axmyin": "axmyin", "axmyin.s": "axmyin_s",
+    "shiftin": "shift", "shift": "shift", "getEntry": "getEntry", "setEntry": "setEntry", "val": "val",
+    "interp": "interpolate", "crt.torns": "crt_torns", "crt.toring": "crt_toring", "crt.toring.copy": "crt_toring",
 }
-# argument kinds of each model operation: P polynomial, S scalar (field element), N natural number
+# call forms that exist only when the corresponding template member instantiates (see compile probes)
+OPTIONAL_VARIANTS = {"maxpy.s": "C08_HAVE_MAXPY_S", "shift": "C08_HAVE_SHIFT"}
+# argument kinds of each model operation: P polynomial, S scalar (field element), N natural number, L list of field elements
 SIG = {
     "setdegree": "P", "degree": "P", "leadcoef": "P", "isZero": "P", "areEqual": "PP", "assign": "P", "monomial": "NS",
-    "eval": "PS", "diff": "P", "reverse": "P", "add": "PP", "neg": "P", "sub": "PP", "subin": "PP",
+    "eval": "PS", "diff": "P", "reverse": "P", "add": "PP", "addin": "PP", "neg": "P", "sub": "PP", "subin": "PP",
     "add_s": "PS", "addin_s": "PS", "sub_s": "PS", "subin_s": "PS", "s_sub": "SP", "mul_s": "PS", "div_s": "PS",
     "mul": "PP", "stdmul": "PP", "karamul": "PP", "mulin": "PP", "sqr": "P", "invmodpowx": "PN",
     "div": "PP", "divmod": "PP", "divmodin": "PP", "mod": "PP", "modin": "PP", "pdivmod": "PP", "pmod": "PP",
     "gcd": "PP", "gcdext": "PP", "invmod": "PP", "invmodunit": "PP", "lcm": "PP", "pow": "PN", "powmod": "PNP",
     "axpy": "PPP", "axpy_s": "SPP", "axpyin": "PPP", "maxpy": "PPP", "maxpyin": "PPP", "maxpyin_s": "PSP",
     "axmy": "PPP", "axmy_s": "SPP", "axmyin": "PPP", "axmyin_s": "PSP",
+    "mul_trunc": "PPNN", "midmul": "PP", "power_compose": "PN", "div_sp": "SP", "mod_sp": "SP", "mod_ps": "PS", "modpowx": "PN",
+    "isDivisor": "PP", "maxpy_s": "SPP", "shift": "PN", "getEntry": "PN", "setEntry": "PSN", "val": "P",
+    "interpolate": "LL", "crt_torns": "LP", "crt_toring": "LL",
 }
-# operations whose C++ body ends in setdegree / assign: the raw result vector must carry no leading zero.
-# The others normalise lazily (degree(), isZero(), areEqual(), assign() strip on read): a leading zero in their
-# raw result is reported under site "Poly1Dom::<op>" class "unnormalised-result" (known finding, see frag/C08.findings.json)
-STRICT_NORMAL = {"setdegree", "assign", "monomial", "reverse", "subin", "div_s", "mul", "stdmul", "karamul", "mulin",
+# operations without a Gallina model: judged by the specification oracle only (labelled in the evidence)
+NO_MODEL = {"midmul", "mod_ps", "maxpy_s", "shift", "getEntry", "setEntry", "val"}
+# operations whose C++ body ends in setdegree / assign (or whose result is normal for mathematical reasons when the
+# operands are): with operands in normal form the raw result vector must carry no leading zero coefficient.
+# The others (add, sub, neg, scalar forms, mod, divmod's remainder, diff, axpy, interpolation, CRT) normalise lazily --
+# degree(), isZero(), areEqual(), assign() strip on read; their raw leading zeros are counted in the evidence, and the
+# accessors are checked on such vectors by the "unnormalised-operands" stream.
+STRICT_NORMAL = {"setdegree", "assign", "monomial", "reverse", "subin", "div_s", "mul", "stdmul", "karamul", "mulin", "sqr",
                  "div", "modin", "gcd", "gcdext", "invmod", "invmodunit", "lcm", "pow", "powmod", "invmodpowx",
-                 "maxpyin", "maxpyin_s", "axmy", "axmy_s", "pdivmod", "pmod"}
+                 "maxpyin", "maxpyin_s", "axmy", "axmy_s", "pdivmod", "pmod", "mul_trunc", "midmul", "power_compose", "modpowx",
+                 "div_sp", "mod_ps"}
 
 
 # ------------------------------------------------------------------ python specification (schoolbook, mod p)
@@ -85,6 +108,18 @@ def pmul(P, Q, p):
     return norm([c % p for c in R])
 
 
+def conv_raw(P, Q, p):
+    """all sP+sQ-1 coefficients of the product of the raw vectors"""
+    if not P or not Q:
+        return []
+    R = [0] * (len(P) + len(Q) - 1)
+    for i, a in enumerate(P):
+        if a:
+            for j, b in enumerate(Q):
+                R[i + j] += a * b
+    return [c % p for c in R]
+
+
 def inv(a, p):
     return pow(a % p, p - 2, p) if p > 2 else a % p
 
@@ -103,6 +138,20 @@ def pdivmod(A, B, p):
             for j in range(db + 1):
                 R[k + j] = (R[k + j] - c * B[j]) % p
     return norm(Q), norm(R)
+
+
+def pseudo_steps(A, B, p):
+    """number of elimination steps of the pseudo-remainder loop (R <- lc(B)*R - lc(R)*X^d*B while deg R >= deg B)"""
+    R, n = list(A), 0
+    while len(R) >= len(B) and len(B) > 1:
+        d = len(R) - len(B)
+        lr = R[-1]
+        R = [(c * B[-1]) % p for c in R]
+        for j, b in enumerate(B):
+            R[j + d] = (R[j + d] - lr * b) % p
+        R = norm(R)
+        n += 1
+    return n
 
 
 def monic(P, p):
@@ -156,7 +205,6 @@ def spec_check(op, p, args, out):
     """returns (ok, expected-description, klass-if-failing) for the output tokens `out` (list of str) of model operation op.
     Values are compared after normalisation; normal form of the raw vectors is judged separately (normal_check)."""
     a = args
-    res = [parse_poly(t) if ("," in t or t == "-" or op not in ("degree", "leadcoef", "isZero", "areEqual", "eval")) else None for t in out]
 
     def val(i):
         return norm(parse_poly(out[i]))
@@ -186,18 +234,18 @@ def spec_check(op, p, args, out):
         return eq([(i * c) % p for i, c in enumerate(a[0])][1:])
     if op == "reverse":
         return eq(list(reversed(a[0])))
-    if op == "add":
+    if op in ("add", "addin"):
         return eq(padd(a[0], a[1], p))
     if op == "neg":
         return eq(pneg(a[0], p))
     if op in ("sub", "subin"):
         return eq(psub(a[0], a[1], p))
     if op in ("add_s", "addin_s"):
-        return eq(padd(a[0], [a[1]], p), klass="empty-operand" if not a[0] else "unnormalised-zero-operand" if not norm(a[0]) else "value")
+        return eq(padd(a[0], [a[1]], p), klass="unnormalised-zero-operand" if (a[0] and not norm(a[0])) else "value")
     if op in ("sub_s", "subin_s"):
-        return eq(psub(a[0], [a[1]], p), klass="empty-operand" if not a[0] else "unnormalised-zero-operand" if not norm(a[0]) else "value")
+        return eq(psub(a[0], [a[1]], p), klass="unnormalised-zero-operand" if (a[0] and not norm(a[0])) else "value")
     if op == "s_sub":
-        return eq(psub([a[0]], a[1], p), klass="empty-polynomial" if not a[1] else "nonempty-polynomial")
+        return eq(psub([a[0]], a[1], p), klass="value" if not a[1] else "nonempty-polynomial")
     if op == "mul_s":
         return eq(pscale(a[0], a[1], p))
     if op == "div_s":
@@ -226,16 +274,23 @@ def spec_check(op, p, args, out):
             Q, R, m = val(0), val(1), int(out[2])
         else:
             Q, R, m = None, val(0), int(out[1])
-        klass = "degA=0<degB" if (len(A) == 1 and len(B) > 1) else ("leading-coefficient-of-B-not-1" if B[-1] != 1 else "monic-B")
+        steps = pseudo_steps(A, B, p)
+        klass = "value"
+        if len(A) == 1 and len(B) > 1:
+            klass = "degA=0<degB"
+        elif op == "pdivmod" and B[-1] != 1 and len(A) > len(B):
+            klass = "non-monic-B-and-degA>degB"
+        elif op == "pmod" and B[-1] != 1 and len(A) >= len(B) and steps < len(A) - len(B) + 1:
+            klass = "non-monic-B-and-a-step-lowers-the-degree-by-2-or-more"
         ok = len(R) < len(B)
         mA = pscale(A, m, p)
         if Q is not None:
             ok = ok and mA == padd(pmul(Q, B, p), R, p)
         else:
             ok = ok and not pdivmod(psub(mA, R, p), B, p)[1]
-        if len(A) >= len(B):
-            ok = ok and (m % p == pow(B[-1], len(A) - len(B) + 1, p) or len(B) == 1)
-        return (ok, "m*A = Q*B + R, deg R < deg B, m = lc(B)^(degA-degB+1)", klass)
+        if len(A) >= len(B) and len(B) > 1:
+            ok = ok and any(m % p == pow(B[-1], k, p) for k in range(len(A) - len(B) + 2))
+        return (ok, "m*A = Q*B + R, deg R < deg B, m a power lc(B)^k, k <= degA-degB+1", klass)
     if op == "gcd":
         G = val(0)
         e = pgcd(a[0], a[1], p)
@@ -255,9 +310,9 @@ def spec_check(op, p, args, out):
     if op == "lcm":
         A, B = norm(a[0]), norm(a[1])
         if not A or not B:
-            return (val(0) == [], "-", "zero-operand")
+            return (val(0) == [], "-", "value")
         e = monic(pdivmod(pmul(A, B, p), pgcd(A, B, p), p)[0], p)
-        return (monic(val(0), p) == e, "unit * " + fmt_poly(e), "degA<degB" if len(A) < len(B) else "degA>=degB")
+        return (monic(val(0), p) == e, "unit * " + fmt_poly(e), "degA<degB" if len(A) < len(B) else "value")
     if op == "pow":
         return eq(ppow(a[0], a[1], p))
     if op == "powmod":
@@ -282,11 +337,59 @@ def spec_check(op, p, args, out):
         return eq(psub(pmul(a[1], a[2], p), a[0], p))
     if op == "axmyin_s":
         return eq(psub(pscale(a[2], a[1], p), a[0], p))
+    if op == "mul_trunc":
+        full = conv_raw(a[0], a[1], p)
+        return eq([full[i] if i < len(full) else 0 for i in range(a[2], a[3] + 1)])
+    if op == "midmul":
+        n = len(a[1]); m = len(a[0]) - n + 1
+        full = conv_raw(a[0], a[1], p)
+        return eq(full[n - 1:n - 1 + m])
+    if op == "power_compose":
+        P = norm(a[0]); b = a[1]
+        W = [0] * (b * (len(P) - 1) + 1) if P else []
+        for i, c in enumerate(P):
+            W[i * b] = c
+        return eq(W, klass="zero-polynomial" if not P else "value")
+    if op == "div_sp":
+        P = norm(a[1])
+        return eq([] if len(P) > 1 else [(a[0] * inv(P[0], p)) % p])
+    if op == "mod_sp":
+        return eq([a[0] % p] if len(norm(a[1])) > 1 else [])
+    if op == "mod_ps":
+        return eq([])
+    if op == "modpowx":
+        return eq(a[0][:a[1]])
+    if op == "isDivisor":
+        P, Q = norm(a[0]), norm(a[1])
+        e = (0 if P else 1) if not Q else (0 if pdivmod(P, Q, p)[1] else 1)
+        return (int(out[0]) == e, str(e), "value")
+    if op == "maxpy_s":
+        return eq(psub(a[2], pscale(a[1], a[0], p), p))
+    if op == "shift":
+        return eq([0] * a[1] + list(a[0]))
+    if op == "getEntry":
+        P = norm(a[0])
+        e = P[a[1]] if a[1] < len(P) else 0
+        return (int(out[0]) == e, str(e), "value")
+    if op == "setEntry":
+        P = list(a[0]) + [0] * max(0, a[2] + 1 - len(a[0]))
+        P[a[2]] = a[1] % p
+        return eq(P)
+    if op == "val":
+        e = min(i for i, c in enumerate(a[0]) if c)
+        return (int(out[0]) == e, str(e), "value")
+    if op in ("interpolate", "crt_toring"):
+        R = val(0)
+        ok = len(R) <= len(a[0]) and all(peval(R, x, p) == f % p for x, f in zip(a[0], a[1]))
+        return (ok, "the polynomial of degree < %d with P(x_i) = f_i" % len(a[0]), "value")
+    if op == "crt_torns":
+        e = [peval(a[1], x, p) for x in a[0]]
+        return ([int(t) for t in out[0].split(",")] == e, ",".join(str(c) for c in e), "value")
     raise KeyError(op)
 
 
 POLY_RESULT_POS = {"divmod": [0, 1], "divmodin": [0, 1], "pdivmod": [0, 1], "pmod": [0], "gcdext": [0, 1, 2]}
-SCALAR_RESULT = {"degree", "leadcoef", "isZero", "areEqual", "eval"}
+SCALAR_RESULT = {"degree", "leadcoef", "isZero", "areEqual", "eval", "isDivisor", "getEntry", "val", "crt_torns"}
 
 
 def normal_check(op, out):
@@ -331,13 +434,16 @@ def sizes_for(rng, thr, big):
     return rng.choice(c)
 
 
-def gen_cases(rng, tier, thr, big, per):
+def gen_cases(rng, tier, thr, big, per, fields, have):
     cases = []
     for variant, op in sorted(VARIANTS.items()):
+        if variant in OPTIONAL_VARIANTS and not have.get(OPTIONAL_VARIANTS[variant]):
+            continue
         sig = SIG[op]
-        for _ in range(per):
-            p = rng.choice(PRIMES)
-            cases.append(gen_case(rng, variant, op, sig, p, thr, big))
+        for i in range(per):
+            fk, p = fields[i % len(fields)] if i < len(fields) else rng.choice(fields)
+            v, o, _, a = gen_case(rng, variant, op, sig, p, thr, big and p < 2 ** 40)
+            cases.append((v, o, fk, p, a))
     return cases
 
 
@@ -345,7 +451,99 @@ def small(rng, big):
     return rng.choice([1, 2, 2, 3, 4, 5, 7, 9, 12] + ([20, 40, 60] if big else []))
 
 
+def distinct_points(rng, p, n):
+    pts = []
+    while len(pts) < n:
+        x = rng.below(p) if (p > 64 or rng.chance(1, 2)) else len(pts)
+        if p <= 64:
+            x = [c for c in range(p) if c not in pts][rng.below(p - len(pts))]
+        if x not in pts:
+            pts.append(x)
+    return pts
+
+
+def gen_special(rng, variant, op, p, thr, big):
+    """generators of the operations added after the first version; None = use the generic generator"""
+    if op == "mul_trunc":
+        A = rand_poly(rng, p, max(1, sizes_for(rng, thr, False))); B = rand_poly(rng, p, max(1, sizes_for(rng, thr, False)))
+        top = len(A) + len(B) - 2
+        v = rng.choice([0, 0, 1, len(B) - 1, len(B), min(len(A), len(B)), rng.below(top + 1)])
+        v = min(v, top + 1)
+        d = rng.choice([v, top, top + 1, top + 3, v + rng.below(top + 2 - min(v, top + 1) + 1), max(v, len(B) - 1), max(v, len(A) - 1)])
+        return [A, B, v, max(v, d)]
+    if op == "midmul":
+        if variant == "karamidmul":
+            n = rng.choice([1, 1, 2, 3, 4, 5, 6, 7, 8, 9, 13, 16, 17] + ([51, 52, 64, 101, 103] if big else []))
+            sP = 2 * n - 1
+        else:
+            n = rng.choice([1, 2, 3, 4, 5, 6, 7, 9, 12, 16] + ([50, 51, 52, 60, 101, 103, 110] if big else []))
+            m = rng.choice([1, 2, 3, 4, 5, n, n, n + 1, max(1, n - 1), 2 * n, 2 * n + 1, 3 * n + 2, max(1, n // 2), max(1, n // 3)] + ([50, 51, 52, 105, 160] if big else []))
+            sP = m + n - 1
+        A = rand_poly(rng, p, sP, rng.below(5)); B = rand_poly(rng, p, n, rng.below(5))
+        if rng.chance(1, 3):      # zero coefficients inside / at the ends of the operands (raw sizes are what counts)
+            A[rng.below(len(A))] = 0; B[rng.below(len(B))] = 0
+            if rng.chance(1, 2):
+                A[-1] = 0
+            if rng.chance(1, 2):
+                B[-1] = 0
+        return [A, B]
+    if op == "power_compose":
+        return [rand_poly(rng, p, rng.choice([1, 1, 2, 3, 4, 5, 8, 13]) if not rng.chance(1, 12) else 0), rng.choice([1, 1, 2, 3, 4, 7])]
+    if op in ("div_sp", "mod_sp"):
+        return [rng.choice([0, 1, p - 1, rng.below(p)]), rand_poly(rng, p, rng.choice([1, 1, 2, 3, 5]))]
+    if op == "mod_ps":
+        return [rand_poly(rng, p, rng.choice([0, 1, 2, 5])), 1 + rng.below(p - 1)]
+    if op == "modpowx":
+        A = rand_poly(rng, p, sizes_for(rng, thr, False))
+        return [A, rng.choice([0, 1, 2, 3, len(A), max(0, len(A) - 1), len(A) + 1, len(A) + 4])]
+    if op == "isDivisor":
+        B = rand_poly(rng, p, rng.choice([0, 1, 2, 3, 4, 6, 9]))
+        A = rand_poly(rng, p, rng.choice([0, 1, 2, 3, 5, 8, 12]))
+        if rng.chance(1, 2) and A and B:
+            A = pmul(A, B, p)
+        return [A, B]
+    if op == "maxpy_s":
+        x = rand_poly(rng, p, sizes_for(rng, thr, False)); y = rand_poly(rng, p, rng.choice([len(x), len(x), max(0, len(x) - 1), len(x) + 2, 0, 1]))
+        a = rng.choice([0, 1, p - 1, rng.below(p)])
+        if rng.chance(1, 4) and len(y) == len(x) and a:
+            y = pscale(x, a, p); y = y + [0] * (len(x) - len(y))
+        return [a, x, y]
+    if op == "shift":
+        return [rand_poly(rng, p, rng.choice([0, 1, 2, 5])), rng.choice([0, 1, 2, 5])]
+    if op == "getEntry":
+        A = rand_poly(rng, p, rng.choice([0, 1, 2, 5, 9]))
+        return [A, rng.choice([0, 1, max(0, len(A) - 1), len(A), len(A) + 3])]
+    if op == "setEntry":
+        A = rand_poly(rng, p, rng.choice([0, 1, 2, 5, 9]))
+        i = rng.choice([0, 1, max(0, len(A) - 1), max(0, len(A) - 1), len(A), len(A) + 3])
+        return [A, rng.choice([0, 0, 1, rng.below(p)]), i]
+    if op == "val":
+        A = rand_poly(rng, p, rng.choice([1, 2, 5, 9]), rng.choice([0, 2, 4, 5]))
+        return [A]
+    if op in ("interpolate", "crt_toring", "crt_torns"):
+        n = rng.choice([1, 2, 3, 4, 5, 6, 8, 11])
+        n = min(n, p)
+        pts = distinct_points(rng, p, n)
+        if op == "crt_torns":
+            return [pts, rand_poly(rng, p, rng.choice([0, 1, 2, n - 1, n, n + 3]))]
+        k = rng.below(4)
+        if k == 0:      # values of a polynomial of lower degree (some divided difference / correction is zero)
+            Pl = rand_poly(rng, p, rng.choice([0, 1, max(1, n // 2)]))
+            vals = [peval(Pl, x, p) for x in pts]
+        elif k == 1:
+            vals = [rng.choice([0, 1, p - 1]) for _ in pts]
+        else:
+            vals = [rng.below(p) for _ in pts]
+        return [pts, vals]
+    return None
+
+
 def gen_case(rng, variant, op, sig, p, thr, big):
+    sp = gen_special(rng, variant, op, p, thr, big)
+    if sp is not None:
+        return (variant, op, p, sp)
+    if variant.endswith(".Dzero"):
+        return (variant, op, p, [[0], rng.choice([0, 1, p - 1, rng.below(p)])])
     heavy = op in ("gcd", "gcdext", "invmod", "invmodunit", "lcm", "powmod", "pow")
     n1 = sizes_for(rng, thr, big and not heavy)
     n2 = sizes_for(rng, thr, big and not heavy)
@@ -429,33 +627,38 @@ def gen_case(rng, variant, op, sig, p, thr, big):
     return (variant, op, p, args)
 
 
-def unnormalised_cases(rng, per):
+def unnormalised_cases(rng, per, fields):
     """operands carrying leading zero coefficients (as add/sub/mod/diff of the library return them)"""
     cases = []
     ops = ["setdegree", "setDegree", "degree.d", "degree.v", "leadcoef", "isZero", "areEqual", "areNEqual", "assign", "eval",
            "mul.rpq", "mulin", "stdmul", "div.rpq", "divmod", "mod.rpq", "gcd.2", "gcd.5", "sqr", "add.rpq", "sub.rpq", "subin",
-           "add.rps", "sub.rps", "diff", "modin", "lcm", "invmod", "pow", "axpy", "maxpy"]
+           "add.rps", "add.rsp", "sub.rps", "diff", "modin", "lcm", "invmod", "pow", "axpy", "maxpy", "addin", "isDivisor",
+           "power_compose", "modpowx", "pdivmod", "pmod", "divmodin", "mod.rpq", "powmod"]
     for variant in ops:
         op = VARIANTS[variant]
         for _ in range(per):
-            p = rng.choice(PRIMES)
+            fk, p = rng.choice(fields)
             _, _, _, args = gen_case(rng, variant, op, SIG[op], p, 2, False)
             which = rng.below(3)
             pos = [i for i, ch in enumerate(SIG[op]) if ch == "P"]
             for j, i in enumerate(pos):
                 if which == 2 or which == j % 2:
-                    if op in ("modin",) and j == 0:
-                        continue
+                    if op in ("modin",) and j == 1:
+                        continue          # precondition of modin: the divisor is in normal form (B.size() = deg B + 1)
                     args[i] = list(args[i]) + [0] * rng.choice([1, 1, 2, 3])
             if rng.chance(1, 6):
                 args[pos[0]] = [0] * rng.choice([1, 2])       # unnormalised zero (e.g. the domain's `zero` member is [0])
-            if op in ("div", "divmod", "mod", "modin", "invmod") and not norm(args[1]):
-                args[1] = [1, 1, 0]
-            cases.append((variant, op, p, args))
+            if op in ("div", "divmod", "divmodin", "mod", "modin", "pdivmod", "pmod") and not norm(args[1]):
+                args[1] = [1, 1] + ([0] if op != "modin" else [])
+            if op == "powmod" and not norm(args[2]):
+                args[2] = [1, 1, 0]
+            if op == "invmod" and not norm(args[0]):
+                args[0] = [1, 0]
+            cases.append((variant, op, fk, p, args))
     return cases
 
 
-def exhaustive_cases(p, maxdeg, variants):
+def exhaustive_cases(fk, p, maxdeg, variants):
     """all pairs of polynomials of degree <= maxdeg over GF(p) (normalised vectors, including the zero polynomial)"""
     polys = [[]]
     for n in range(1, maxdeg + 2):
@@ -479,14 +682,14 @@ def exhaustive_cases(p, maxdeg, variants):
                         continue
                 if op in ("gcdext",) and not A and not B:
                     continue
-                cases.append((v, op, p, [A, B]))
+                cases.append((v, op, fk, p, [A, B]))
     return cases
 
 
 def tok_args(op, args):
     out = []
     for ch, x in zip(SIG[op], args):
-        out.append(fmt_poly(x) if ch == "P" else str(x))
+        out.append(fmt_poly(x) if ch in "PL" else str(x))
     return " ".join(out)
 
 
@@ -507,72 +710,148 @@ def compile_probe(name, body):
     return rc == 0, out
 
 
-def run_stream(chk, label, himpl, drv, cases, kthr, sthr, stats):
-    """run implementation and model on the cases, three-way compare"""
+PROBES = [("maxpy_s", "D.maxpy(r, s, a, a);", "Poly1Dom::maxpy(Rep&,const Type_t&,const Rep&,const Rep&)", "C08_HAVE_MAXPY_S"),
+          ("shift", "D.shift(r, a, 2);", "Poly1Dom::shift(Rep&,const Rep&,int)", "C08_HAVE_SHIFT")]
+
+
+def build_all(fieldkeys_small, fieldkeys_real, have, extra_thr=None):
+    """one binary per (threshold setting, field), compiled in parallel; returns {(tag, fieldkey): binary} and the logs of failures"""
+    opt = ["-D" + f for f, ok in sorted(have.items()) if ok]
+    jobs = [("t2", fk, ["-DKARA_THRESHOLD=2", "-DSQR_THRESHOLD=2"]) for fk in fieldkeys_small]
+    jobs += [("real", fk, []) for fk in fieldkeys_real]
+    if extra_thr:
+        jobs += [(extra_thr[0], fk, extra_thr[1]) for fk in fieldkeys_small]
+    vf.build_repo_lib()       # once, before the parallel part
+
+    def one(job):
+        tag, fk, flags = job
+        b, log = vf.build_harness("c08_poly.C", extra_flags=flags + opt + ["-DC08_FIELD_" + fk], link_lib=True, name="c08_%s_%s" % (tag, fk))
+        return (tag, fk), b, log
+    bins, logs = {}, []
+    with ThreadPoolExecutor(max_workers=min(8, len(jobs))) as ex:
+        for key, b, log in ex.map(one, jobs):
+            bins[key] = b
+            if b is None:
+                logs.append("%s: %s" % (key, log[-3000:]))
+    return bins, logs
+
+
+def run_binary(binary, lines, timeout=900):
+    """run the implementation harness on the lines; a crash costs the case it died on, the rest is re-submitted.
+    returns (outputs or None for a crashed case, list of crashed indices, thr header)"""
+    outs = [None] * len(lines)
+    crashed = []
+    start = 0
+    hdr = None
+    while start < len(lines):
+        rc, o, err = vf.run_lines(binary, "".join(lines[start:]), timeout=timeout)
+        h = [l for l in o if l.startswith("#thr")]
+        if h:
+            hdr = h[0]
+        o = [l for l in o if not l.startswith("#")]
+        for i, l in enumerate(o[:len(lines) - start]):
+            outs[start + i] = l
+        if rc == 0 and len(o) >= len(lines) - start:
+            break
+        k = start + len(o)
+        if k < len(lines):
+            crashed.append((k, rc))
+        start = k + 1
+        if len(crashed) > 25:
+            break
+    return outs, crashed, hdr
+
+
+def run_stream(chk, label, bins, tag, drv, cases, kthr, sthr, stats):
+    """run implementation (one binary per field) and model on the cases, three-way compare"""
     if not cases:
         return
-    lines_i = "".join("%s %d %d %d %s\n" % (v, p, kthr, sthr, tok_args(op, a)) for v, op, p, a in cases)
-    lines_m = "".join("%s %d %d %d %s\n" % (op, p, kthr, sthr, tok_args(op, a)) for v, op, p, a in cases)
-    rc, iout, ierr = vf.run_lines(himpl, lines_i, timeout=1500)
-    hdr = [l for l in iout if l.startswith("#thr")]
-    iout = [l for l in iout if not l.startswith("#")]
-    if hdr:
-        t = hdr[0].split()
-        if (int(t[1]), int(t[2])) != (kthr, sthr):
-            chk.broke("%s: harness compiled with thresholds %s, model run with (%d,%d)" % (label, t[1:], kthr, sthr))
-    if rc != 0 or len(iout) != len(cases):
-        # find the case the implementation died on
-        k = len(iout)
-        bad = cases[k] if k < len(cases) else None
-        chk.broke("%s: implementation harness failed (rc=%s, %d/%d lines)" % (label, rc, len(iout), len(cases)),
-                  ("first unanswered case: %s %s\n" % (bad[0], tok_args(bad[1], bad[3])) if bad else "") + ierr)
-        if bad:
-            chk.fail_input("Poly1Dom::" + bad[1], "crash", {"variant": bad[0], "p": bad[2], "args": tok_args(bad[1], bad[3]), "stream": label},
-                           "a result", "process died (rc=%s)" % rc)
-        return
+    iout = [None] * len(cases)
+    crashed_all = []
+    byfield = {}
+    for i, c in enumerate(cases):
+        byfield.setdefault(c[2], []).append(i)
+
+    def run_field(fk):
+        idx = byfield[fk]
+        b = bins.get((tag, fk))
+        if b is None:
+            return fk, None, [], None
+        lines = ["%s %s %d %d %d %s\n" % (cases[i][0], fk, cases[i][3], kthr, sthr, tok_args(cases[i][1], cases[i][4])) for i in idx]
+        outs, crashed, hdr = run_binary(b, lines)
+        return fk, outs, crashed, hdr
+    with ThreadPoolExecutor(max_workers=6) as ex:
+        for fk, outs, crashed, hdr in ex.map(run_field, sorted(byfield)):
+            if outs is None:
+                chk.broke("%s: no implementation harness for field %s" % (label, fk))
+                continue
+            if hdr:
+                t = hdr.split()
+                if (int(t[1]), int(t[2])) != (kthr, sthr):
+                    chk.broke("%s: harness compiled with thresholds %s, model run with (%d,%d)" % (label, t[1:], kthr, sthr))
+            for j, i in enumerate(byfield[fk]):
+                iout[i] = outs[j]
+            for j, rc in crashed:
+                crashed_all.append((byfield[fk][j], rc))
+    # model
     mout = None
-    if drv:
-        rc, mout, merr = vf.run_lines(drv, lines_m, timeout=1500)
-        if rc != 0 or len(mout) != len(cases):
-            chk.broke("%s: model driver failed (rc=%s, %d/%d lines)" % (label, rc, len(mout), len(cases)), merr)
-            mout = None
-    for i, (v, op, p, a) in enumerate(cases):
-        key = (v, p, tok_args(op, a))
+    midx = [i for i, c in enumerate(cases) if c[1] not in NO_MODEL]
+    if drv and midx:
+        lines_m = "".join("%s %d %d %d %s\n" % (cases[i][1], cases[i][3], kthr, sthr, tok_args(cases[i][1], cases[i][4])) for i in midx)
+        rc, mo, merr = vf.run_lines(drv, lines_m, timeout=1500)
+        if rc != 0 or len(mo) != len(midx):
+            chk.broke("%s: model driver failed (rc=%s, %d/%d lines)" % (label, rc, len(mo), len(midx)), merr)
+        else:
+            mout = dict(zip(midx, mo))
+    crashed_set = dict(crashed_all)
+    for i, (v, op, fk, p, a) in enumerate(cases):
+        key = (v, fk, p, tok_args(op, a))
         nontrivial = sum(len(norm(x)) for x in a if isinstance(x, list)) >= 2
         chk.count(key, nontrivial)
         stats["by_op"][op] = stats["by_op"].get(op, 0) + 1
         stats["by_variant"][v] = stats["by_variant"].get(v, 0) + 1
-        stats["by_p"][p] = stats["by_p"].get(p, 0) + 1
+        fn = "%s p=%d" % (FIELD_NAMES[fk], p) if p < 2 ** 40 else "%s p=2^100+277" % FIELD_NAMES[fk]
+        stats["by_field"][fn] = stats["by_field"].get(fn, 0) + 1
         mx = max([len(x) for x in a if isinstance(x, list)] + [0])
         b = "0" if mx == 0 else "1" if mx == 1 else "2-8" if mx <= 8 else "9-47" if mx <= 47 else "48-53" if mx <= 53 else "54-199" if mx <= 199 else ">=200"
         stats["by_size"][b] = stats["by_size"].get(b, 0) + 1
+        case = {"variant": v, "op": op, "field": fk, "p": p, "kthr": kthr, "sthr": sthr, "args": tok_args(op, a), "stream": label}
+        inputs_normal = all((not x) or x[-1] % p != 0 for ch, x in zip(SIG[op], a) if ch == "P")
+        if i in crashed_set or iout[i] is None:
+            klass = "crash"
+            if op == "power_compose" and not norm(a[0]):
+                klass = "zero-polynomial"
+            if op in ("add_s", "sub_s") and a[0] and not norm(a[0]):
+                klass = "unnormalised-zero-operand"
+            chk.fail_input("Poly1Dom::" + op, klass, case, "a result", "process died (rc=%s)" % crashed_set.get(i, "?"),
+                           "the implementation harness died on this case")
+            continue
         if i % 211 == 0:
-            chk.sample({"stream": label, "variant": v, "p": p, "args": tok_args(op, a)[:300], "impl": iout[i][:300]}, limit=16)
+            chk.sample({"stream": label, "variant": v, "field": FIELD_NAMES[fk], "p": p, "args": tok_args(op, a)[:300], "impl": iout[i][:300]}, limit=16)
         out = iout[i].split()
-        case = {"variant": v, "op": op, "p": p, "kthr": kthr, "sthr": sthr, "args": tok_args(op, a), "stream": label}
         try:
             ok, exp, klass = spec_check(op, p, a, out)
         except Exception as ex:      # malformed output
             ok, exp, klass = False, "well-formed output", "malformed:" + type(ex).__name__
         if not ok:
             chk.fail_input("Poly1Dom::" + op, klass, case, exp, iout[i][:2000], "implementation differs from the schoolbook specification mod p")
-        else:
-            try:
-                nf = normal_check(op, out)
-            except Exception:
-                nf = True
-            if not nf:
-                if op in STRICT_NORMAL:
-                    chk.fail_input("Poly1Dom::" + op, "leading-zero-in-result", case, "normal form", iout[i][:2000])
-                else:
-                    stats["lazy_unnormalised"][op] = stats["lazy_unnormalised"].get(op, 0) + 1
-                    chk.fail_input("Poly1Dom::" + op, "unnormalised-result", case, "no leading zero coefficient", iout[i][:2000],
-                                   "result vector carries leading zero coefficients (normalised only lazily by degree()/isZero()/assign())")
-        if mout is not None:
+            continue      # a failing input is reported once; no correspondence verdict for the same case
+        try:
+            nf = normal_check(op, out)
+        except Exception:
+            nf = True
+        if not nf:
+            if op in STRICT_NORMAL and inputs_normal:
+                chk.fail_input("Poly1Dom::" + op, "leading-zero-in-result", case, "normal form", iout[i][:2000])
+                continue
+            stats["lazy_unnormalised"][op] = stats["lazy_unnormalised"].get(op, 0) + 1
+        if mout is not None and i in mout:
             stats["corr"] += 1
             if mout[i].split() != out:
-                chk.broke("correspondence model/implementation differs [%s] %s p=%d kthr=%d sthr=%d args=%s: model=%s impl=%s"
-                          % (label, v, p, kthr, sthr, tok_args(op, a)[:1500], mout[i][:1500], iout[i][:1500]))
+                chk.broke("correspondence model/implementation differs [%s] %s %s p=%d kthr=%d sthr=%d args=%s: model=%s impl=%s"
+                          % (label, v, fk, p, kthr, sthr, tok_args(op, a)[:1500], mout[i][:1500], iout[i][:1500]))
+        elif op in NO_MODEL:
+            stats["oracle_only"] += 1
 
 
 def main(tier, replay=None):
@@ -582,13 +861,16 @@ def main(tier, replay=None):
     chk.cov["trusted_base"] = [
         "Coq 8.16.1 kernel",
         "extraction: ExtrOcamlBasic only; Z/positive/nat kept as extracted inductives; OCaml 4.13.1; zarith only for text I/O in harness/zio.ml",
-        "the coefficient domain is a record of operations; theorems assume field_theory (stdlib) + isZero decides equality with 0; "
-        "Modular<int32_t> itself is the subject of C03, here its operations are modelled by Z arithmetic mod p (ZpDom in Model.v)",
+        "the coefficient domain is a record of operations; theorems assume the field laws stated in coq/C08/Spec.v (FieldOK) with Leibniz equality and "
+        "a zero test that decides equality with 0; the coefficient rings themselves are the subject of C03/C05, here their operations are "
+        "modelled by Z arithmetic mod p (ZpDom in Model.v)",
         "harness/c08_poly.C, checks/C08.py (case generator, python schoolbook oracle)",
         "g++ / x86-64 for the implementation side; -DKARA_THRESHOLD/-DSQR_THRESHOLD override the #ifndef defaults of givpoly1kara.inl",
     ]
-    chk.assumptions = ["model is hand-written after src/library/poly1/*.inl; tie = correspondence on generated cases over Z/pZ, p in %s" % PRIMES,
-                       "KARA_THRESHOLD/SQR_THRESHOLD read from givpoly1kara.inl = %s/%s and passed to the model; second harness forced to 2/2" % (kth, sth)]
+    chk.assumptions = ["model is hand-written after src/library/poly1/*.inl; tie = correspondence on generated cases over prime fields in six "
+                       "coefficient-domain implementations; extension fields GF(p^k), k>1, and QField are not run",
+                       "KARA_THRESHOLD/SQR_THRESHOLD read from givpoly1kara.inl = %s/%s and passed to the model; second harness forced to 2/2" % (kth, sth),
+                       "middle product (midmul/stdmidmul/karamidmul), shift, getEntry/setEntry/val, maxpy(scalar) have no Gallina model: specification oracle only"]
     # 1. proofs
     res = vf.coq_check_props(AREA)
     chk.proof_result(res, AREA)
@@ -599,66 +881,65 @@ def main(tier, replay=None):
     if kth is None or sth is None:
         chk.broke("cannot read KARA_THRESHOLD / SQR_THRESHOLD from givpoly1kara.inl")
         kth, sth = kth or 50, sth or 50
-    h_real, l2 = vf.build_harness("c08_poly.C", link_lib=True, name="c08_poly_real")
-    h_small, l3 = vf.build_harness("c08_poly.C", extra_flags=["-DKARA_THRESHOLD=2", "-DSQR_THRESHOLD=2"], link_lib=True, name="c08_poly_t2")
-    h_odd = None
-    if tier != "quick":
-        h_odd, l4 = vf.build_harness("c08_poly.C", extra_flags=["-DKARA_THRESHOLD=1", "-DSQR_THRESHOLD=3"], link_lib=True, name="c08_poly_t13")
-        if h_odd is None:
-            chk.broke("implementation harness (thresholds 1/3) does not compile against /repo", l4)
-    if h_real is None or h_small is None:
-        chk.broke("implementation harness does not compile against /repo", (l2 or "") + (l3 or ""))
-        return chk.finish()
-    stats = {"by_op": {}, "by_variant": {}, "by_p": {}, "by_size": {}, "corr": 0, "lazy_unnormalised": {}}
+    stats = {"by_op": {}, "by_variant": {}, "by_field": {}, "by_size": {}, "corr": 0, "lazy_unnormalised": {}, "oracle_only": 0}
     # 3. call forms that must at least instantiate
-    for nm, body, site in [("maxpy_s", "D.maxpy(r, s, a, a);", "Poly1Dom::maxpy(Rep&,const Type_t&,const Rep&,const Rep&)"),
-                           ("shift", "D.shift(r, a, 2);", "Poly1Dom::shift(Rep&,const Rep&,int)")]:
+    have = {}
+    for nm, body, site, flag in PROBES:
         ok, out = compile_probe(nm, body)
         chk.count(("compile", nm), True)
+        have[flag] = ok
         if not ok:
             chk.fail_input(site, "does-not-compile", {"probe": body}, "the call form instantiates", out[-600:])
+    small_keys = sorted(set(k for k, _ in FIELDS_SMALLTHR))
+    real_keys = sorted(set(k for k, _ in FIELDS_REAL))
+    bins, blogs = build_all(small_keys, real_keys, have, ("t13", ["-DKARA_THRESHOLD=1", "-DSQR_THRESHOLD=3"]) if tier != "quick" else None)
+    if blogs:
+        chk.broke("implementation harness does not compile against /repo", "\n".join(blogs))
+        return chk.finish()
     # 4. cases
     if replay:
         rp = json.load(open(replay))
-        cs = []
         for f in rp.get("failing_inputs", []):
             c = f.get("case", {})
             if "variant" in c:
                 op = c["op"]
                 toks = c["args"].split()
-                a = [parse_poly(t) if ch == "P" else int(t) for ch, t in zip(SIG[op], toks)]
-                cs.append(((c["variant"], op, c["p"], a), c.get("kthr", kth), c.get("sthr", sth)))
-        for c, k, s in cs:
-            h = h_real if (k, s) == (kth, sth) else h_small
-            run_stream(chk, "replay", h, drv, [c], k, s, stats)
+                a = [parse_poly(t) if ch in "PL" else int(t) for ch, t in zip(SIG[op], toks)]
+                k, s = c.get("kthr", kth), c.get("sthr", sth)
+                tag = "real" if (k, s) == (kth, sth) else "t2" if (k, s) == (2, 2) else "t13"
+                run_stream(chk, "replay", bins, tag, drv, [(c["variant"], op, c.get("field", "mi32"), c["p"], a)], k, s, stats)
     else:
         per = 14 if tier == "quick" else 150
-        run_stream(chk, "thr2", h_small, drv, gen_cases(rng, tier, 2, False, per), 2, 2, stats)
-        run_stream(chk, "real", h_real, drv, gen_cases(rng, tier, kth, True, per), kth, sth, stats)
-        run_stream(chk, "unnormalised-operands", h_small, drv, unnormalised_cases(rng, 6 if tier == "quick" else 60), 2, 2, stats)
+        run_stream(chk, "thr2", bins, "t2", drv, gen_cases(rng, tier, 2, False, per, FIELDS_SMALLTHR, have), 2, 2, stats)
+        run_stream(chk, "real", bins, "real", drv, gen_cases(rng, tier, kth, True, per, FIELDS_REAL, have), kth, sth, stats)
+        run_stream(chk, "unnormalised-operands", bins, "t2", drv, unnormalised_cases(rng, 6 if tier == "quick" else 60, FIELDS_SMALLTHR), 2, 2, stats)
         exv = ["mul.rpq", "karamul", "sqr", "divmod", "modin", "gcd.2", "gcd.5", "sub.rpq", "add.rpq", "lcm", "invmod", "pdivmod", "pmod"]
         if tier == "quick":
-            run_stream(chk, "exhaustive GF(2) deg<=3", h_small, drv, exhaustive_cases(2, 3, exv), 2, 2, stats)
-            run_stream(chk, "exhaustive GF(3) deg<=2", h_small, drv, exhaustive_cases(3, 2, exv), 2, 2, stats)
+            run_stream(chk, "exhaustive GF(2) deg<=3", bins, "t2", drv, exhaustive_cases("mi32", 2, 3, exv), 2, 2, stats)
+            run_stream(chk, "exhaustive GF(3) deg<=2", bins, "t2", drv, exhaustive_cases("mi32", 3, 2, exv), 2, 2, stats)
             chk.cov["exhaustive_spaces"] = ["GF(2) deg<=3 pairs", "GF(3) deg<=2 pairs"]
         else:
-            run_stream(chk, "exhaustive GF(2) deg<=6", h_small, drv, exhaustive_cases(2, 6, exv), 2, 2, stats)
-            run_stream(chk, "exhaustive GF(3) deg<=4", h_small, drv, exhaustive_cases(3, 4, exv), 2, 2, stats)
-            run_stream(chk, "exhaustive GF(2) deg<=5 thr 1/3", h_odd, drv, exhaustive_cases(2, 5, exv), 1, 3, stats)
-            run_stream(chk, "thr13", h_odd, drv, gen_cases(rng, tier, 3, False, per), 1, 3, stats)
-            chk.cov["exhaustive_spaces"] = ["GF(2) deg<=6 pairs", "GF(3) deg<=4 pairs", "GF(2) deg<=5 pairs (thr 1/3)"]
+            run_stream(chk, "exhaustive GF(2) deg<=6", bins, "t2", drv, exhaustive_cases("mi32", 2, 6, exv), 2, 2, stats)
+            run_stream(chk, "exhaustive GF(3) deg<=4", bins, "t2", drv, exhaustive_cases("mi32", 3, 4, exv), 2, 2, stats)
+            run_stream(chk, "exhaustive GF(3) deg<=3 Zech", bins, "t2", drv, exhaustive_cases("gfq", 3, 3, exv), 2, 2, stats)
+            run_stream(chk, "exhaustive GF(2) deg<=5 thr 1/3", bins, "t13", drv, exhaustive_cases("mi32", 2, 5, exv), 1, 3, stats)
+            run_stream(chk, "thr13", bins, "t13", drv, gen_cases(rng, tier, 3, False, per, FIELDS_SMALLTHR, have), 1, 3, stats)
+            chk.cov["exhaustive_spaces"] = ["GF(2) deg<=6 pairs", "GF(3) deg<=4 pairs", "GF(3) deg<=3 pairs (Zech)", "GF(2) deg<=5 pairs (thr 1/3)"]
     if len(chk.broken) > 20:
         chk.broken = chk.broken[:20] + [{"what": "... %d more" % (len(chk.broken) - 20), "detail": ""}]
-    chk.cov["rule"] = ("every call form (variant) x p in {2,3,7,65521} x shapes {dense, sparse, monomial, all-ones, zero low half, zero constant term} x "
-                       "sizes {0,1,2,.., thr-1..thr+2, 2thr.., 48..53, 63..65, 99..105, 127..129, ~200, ~300}, equal degree, degree difference around "
-                       "powers of two, divisor of degree 0, common factor, exact multiple; operands with leading zeros; exhaustive small pairs over GF(2), GF(3); "
-                       "non-trivial = operands have together >= 2 non-zero-stripped coefficients; distinct = (variant,p,operands)")
+    chk.cov["rule"] = ("every call form (variant) x coefficient domain {Modular<int32_t> p=2,3,7,65521; Modular<int64_t> p=2^31-1; Modular<double> p=5,2^26-5; "
+                       "Modular<Integer> p=3,2^100+277; ModularBalanced<int32_t> p=7,32749; GFqDom<int32_t>(p,1) p=7,251} x shapes {dense, sparse, monomial, "
+                       "all-ones, zero low half, zero constant term} x sizes {0,1,2,.., thr-1..thr+2, 2thr.., 48..53, 63..65, 99..105, 127..129, ~200, ~300}, "
+                       "equal degree, degree difference around powers of two, divisor of degree 0, common factor, exact multiple; operands with leading "
+                       "zeros; exhaustive small pairs over GF(2), GF(3); non-trivial = operands have together >= 2 non-zero-stripped coefficients; "
+                       "distinct = (variant,field,p,operands)")
     chk.cov["traces_validated_against_impl"] = stats["corr"]
+    chk.cov["cases_judged_by_oracle_only_no_model"] = stats["oracle_only"]
     chk.cov["variants"] = len(VARIANTS)
     chk.cov["thresholds_from_source"] = [kth, sth]
     chk.cov["distribution_by_op"] = stats["by_op"]
     chk.cov["distribution_by_variant"] = stats["by_variant"]
-    chk.cov["distribution_by_prime"] = {str(k): v for k, v in stats["by_p"].items()}
+    chk.cov["distribution_by_field"] = stats["by_field"]
     chk.cov["distribution_by_max_operand_size"] = stats["by_size"]
-    chk.cov["lazy_unnormalised_results_seen"] = stats["lazy_unnormalised"]
+    chk.cov["lazily_normalised_results_with_leading_zeros_seen"] = stats["lazy_unnormalised"]
     return chk.finish()
